@@ -24,7 +24,9 @@ func init() {
 			"(9) every failing return of wrapInCubbyhole after CreateToken revokes the new token; " +
 			"(10) the response by which handleWrappingRewrap hands the payload on always carries a literal WrapInfo whose TTL is the stored creation TTL; " +
 			"(11) the built-in response-wrapping policy text names exactly cubbyhole/response [create, read] and sys/wrapping/unwrap [update], the policy is in the immutable table, and SetPolicy writes only across that table's refusal; " +
-			"(12) handleWrappingLookup reads the wrap info through a context switched to the namespace found from the looked-up token's NamespaceID.",
+			"(12) handleWrappingLookup reads the wrap info through a context switched to the namespace found from the looked-up token's NamespaceID; " +
+			"(13) handleWrappingRewrap consumes the use, reads the cubbyhole and revokes through a context switched to that namespace as well; " +
+			"(14) the token revoked after a third-party unwrap / rewrap is named by the looked-up entry's own ID, not by the (external) form found in the request.",
 		NotDecided: "'exactly one of k concurrent unwraps succeeds' (schedules); TTL expiry behaviour; that the cubbyhole backend isolates tokens (C12.4).",
 		Run:        runC18,
 	})
